@@ -1,6 +1,7 @@
 mod daemon;
 mod fakecli;
 mod frame;
+mod fuzz;
 mod hello;
 mod memtransport;
 mod reply;
@@ -38,6 +39,7 @@ fn main() {
         "frame" => frame::main(&opts),
         "reply" => reply::main(&opts),
         "hello" => hello::main(&opts),
+        "fuzz" => fuzz::main(&opts),
         "daemon" => daemon::main(&opts),
         _ => {
             eprintln!("unknown op {op}");
